@@ -271,6 +271,8 @@ def expand(s):
 RENAMES = [(r"\bthis->", ""), (r"\bcinfo->", ""), (r"\bdinfo->", ""), (r"\bcompptr->", ""),
            (r"\bscalingFactor\.num\b", "sf_num"), (r"\bscalingFactor\.denom\b", "sf_denom"),
            (r"\bstrides\[(\d)\]", r"strides\1"), (r"\bsf_num\b", "sf_num"),
+           (r"\bstrides\[i\]", "stride_i"), (r"\bpw\[i\]", "pw_i"), (r"\bph\[i\]", "ph_i"), (r"\biw\[i\]", "iw_i"),
+           (r"\bth\[i\]", "th_i"), (r"\bcrow\[i\]", "crow_i"),
            (r"\bcomp_info\[0\]\.h_samp_factor\b", "yh"), (r"\bcomp_info\[0\]\.v_samp_factor\b", "yv"),
            (r"\bcomp_info\[k\]\.h_samp_factor\b", "ch"), (r"\bcomp_info\[k\]\.v_samp_factor\b", "cv")]
 
@@ -486,7 +488,7 @@ UNI = [("tj3CompressFromYUV8", "src", "tj3CompressFromYUVPlanes8",
 uni_names = []
 OUT.append("(* one unified-buffer function: translated stride/offset/check expressions; legacy_* = the chroma dimension is\n"
            "   obtained through tjPlaneWidth/tjPlaneHeight, whose error value is -1 instead of 0 *)")
-OUT.append("Record uni_fn := { u_padguard : Z -> Z -> Z -> bool; u_stride0 : Z -> Z -> Z; u_stride0_ok : Z -> Z -> bool; u_stride1 : Z -> Z -> Z; u_stride1_ok : Z -> Z -> bool;\n"
+OUT.append("Record uni_fn := { u_argguard : Z -> Z -> Z -> bool; u_unknown : Z -> bool; u_padguard : Z -> Z -> Z -> bool; u_stride0 : Z -> Z -> Z; u_stride0_ok : Z -> Z -> bool; u_stride1 : Z -> Z -> Z; u_stride1_ok : Z -> Z -> bool;\n"
            "  u_toolarge : Z -> Z -> Z -> Z -> bool; u_off1 : Z -> Z -> Z; u_off1_ok : Z -> Z -> bool; u_off2 : Z -> Z -> Z; u_off2_ok : Z -> Z -> bool;\n"
            "  u_legacy_pw1 : bool; u_legacy_ph1 : bool }.\n")
 for fn, sd, callee, callrx in UNI:
@@ -497,8 +499,11 @@ for fn, sd, callee, callrx in UNI:
     gtxt = " ".join(g.group(1).split())
     if "align < 1 || !IS_POW2(align)" not in gtxt:
         die(fn + ": the alignment guard `align < 1 || !IS_POW2(align)` is gone: " + gtxt)
-    if fn != "tj3DecompressToYUV8" and not ("width <= 0" in gtxt and "height <= 0" in gtxt):
-        die(fn + ": the width/height guard is gone: " + gtxt)
+    # the guard as a function of the geometry arguments: buffer pointers are taken to be non-NULL (1), jpegSize positive (1)
+    gsub = re.sub(r"\b(srcBuf|dstBuf|jpegBuf|jpegSize)\b", "1", gtxt).replace("NULL", "0")
+    cdef("u%s_argguard" % short, ["width", "align", "height"], gsub, "math", fn + ": argument guard (non-NULL buffers)")
+    g = B.find(r"if \(" + E + r"\)" + W + r'THROW\("(?:TJPARAM_SUBSAMP must be specified|Could not determine subsampling level of JPEG image)"\);', "unknown-subsampling guard")
+    cdef("u%s_unknown" % short, ["subsamp"], g.group(1), "math", fn + ": subsampling level not known")
     if fn == "tj3DecompressToYUV8":
         B.find(r"width = TJSCALED\(dinfo->image_width, this->scalingFactor\);" + W +
                r"height = TJSCALED\(dinfo->image_height, this->scalingFactor\);", "scaled width/height")
@@ -524,10 +529,10 @@ for fn, sd, callee, callrx in UNI:
     g = B.find(r"%s\[2\] = %s\[1\] \+ " % (pl, pl) + E + r";", "plane 2 pointer")
     cdef("u%s_off2" % short, ["strides1", "ph1"], g.group(1), "int", fn + ": offset of plane 2 relative to plane 1")
     B.find(callrx, "call of " + callee + " with the planes/strides computed above")
-    OUT.append("Definition u%s : uni_fn := {| u_padguard := u%s_padguard; u_stride0 := u%s_stride0; u_stride0_ok := u%s_stride0_ok; u_stride1 := u%s_stride1; "
+    OUT.append("Definition u%s : uni_fn := {| u_argguard := u%s_argguard; u_unknown := u%s_unknown; u_padguard := u%s_padguard; u_stride0 := u%s_stride0; u_stride0_ok := u%s_stride0_ok; u_stride1 := u%s_stride1; "
                "u_stride1_ok := u%s_stride1_ok;\n  u_toolarge := u%s_toolarge; u_off1 := u%s_off1; u_off1_ok := u%s_off1_ok; u_off2 := u%s_off2; "
                "u_off2_ok := u%s_off2_ok;\n  u_legacy_pw1 := %s; u_legacy_ph1 := %s |}.\n"
-               % ((short,) * 11 + ("true" if legacy_w else "false", "true" if legacy_h else "false")))
+               % ((short,) * 13 + ("true" if legacy_w else "false", "true" if legacy_h else "false")))
     uni_names.append(short)
 
 
@@ -625,6 +630,72 @@ cdef("dtp_dctsize", ["sf_num", "sf_denom"], g.group(1), "math", "tj3DecompressTo
 B.find(r"pw\[i\] = tj3YUVPlaneWidth\(i, dinfo->output_width, this->subsamp\);" + W +
        r"ph\[i\] = tj3YUVPlaneHeight\(i, dinfo->output_height, this->subsamp\);", "pw[i]/ph[i] from the size functions")
 B.find(r"if \(iw\[i\] != pw\[i\] \|\| ih != ph\[i\]\) usetmpbuf = 1;", "usetmpbuf test")
+
+
+# ------------------------------------------------------------------ copy loops of the per-plane functions
+JI = open(repo + "/src/jpegint.h").read()
+MACROS["MAX"] = define_macro(JI, "MAX")
+MACROS["MIN"] = define_macro(JI, "MIN")
+A = r"([^,;]*?)"      # one argument of a call
+ROWSTEP = r"\[i\]\[row\] = ptr;" + W + r"ptr \+= " + E + r";"
+RS = ["strides", "stride_i", "pw_i"]
+
+B = Body("tj3EncodeYUVPlanes8")
+g = B.find(r"for \(row = 0; row < ph\[i\]; row\+\+\) \{" + W + r"outbuf" + ROWSTEP, "outbuf row pointers")
+cdef("enc_rowstep", RS, g.group(1), "math", "tj3EncodeYUVPlanes8: distance between the row pointers of a plane")
+g = B.find(r"for \(row = 0; row < ph0; row \+= " + E + r"\) \{", "main loop")
+cdef("enc_loopstep", ["max_v_samp_factor"], g.group(1), "math", "tj3EncodeYUVPlanes8: rows of luma per iteration (loop bound: ph0)")
+g = B.find(r"jcopy_sample_rows\(tmpbuf2\[i\], 0, outbuf\[i\]," + W + A + r"," + W + A + r"," + W + A + r"\);", "copy into the plane")
+cdef("enc_copy_row", ["row", "v_samp_factor", "max_v_samp_factor"], g.group(1), "math", "tj3EncodeYUVPlanes8: first destination row")
+cdef("enc_copy_n", ["v_samp_factor"], g.group(2), "math", "tj3EncodeYUVPlanes8: rows copied")
+cdef("enc_copy_w", ["pw_i"], g.group(3), "math", "tj3EncodeYUVPlanes8: samples copied per row")
+
+B = Body("tj3DecodeYUVPlanes8")
+g = B.find(r"for \(row = 0; row < ph\[i\]; row\+\+\) \{" + W + r"inbuf" + ROWSTEP, "inbuf row pointers")
+cdef("dec_rowstep", RS, g.group(1), "math", "tj3DecodeYUVPlanes8: distance between the row pointers of a plane")
+g = B.find(r"for \(row = 0; row < ph0; row \+= " + E + r"\) \{", "main loop")
+cdef("dec_loopstep", ["max_v_samp_factor"], g.group(1), "math", "tj3DecodeYUVPlanes8: rows of luma per iteration (loop bound: ph0)")
+g = B.find(r"jcopy_sample_rows\(inbuf\[i\]," + W + A + r", tmpbuf\[i\], 0," + W + A + r"," + W + A + r"\);", "copy out of the plane")
+cdef("dec_copy_row", ["row", "v_samp_factor", "max_v_samp_factor"], g.group(1), "math", "tj3DecodeYUVPlanes8: first source row")
+cdef("dec_copy_n", ["v_samp_factor"], g.group(2), "math", "tj3DecodeYUVPlanes8: rows copied")
+cdef("dec_copy_w", ["pw_i"], g.group(3), "math", "tj3DecodeYUVPlanes8: samples copied per row")
+
+for fn, short, io, cinfo, dimfield in (("tj3DecompressToYUVPlanes8", "dtp", "outbuf", "dinfo", "output_height"),
+                                       ("tj3CompressFromYUVPlanes8", "cfp", "inbuf", "cinfo", "image_height")):
+    B = Body(fn)
+    g = B.find(r"iw\[i\] = " + E + r";" + W + r"ih = " + E + r";", "iw[i], ih")
+    unit = ["dctsize"] if short == "dtp" else []
+    cdef(short + "_iw", ["width_in_blocks"] + unit, g.group(1), "math", fn + ": width of the rows the codec produces/consumes")
+    cdef(short + "_ih", ["height_in_blocks"] + unit, g.group(2), "math", fn + ": number of rows the codec produces/consumes")
+    g = B.find(r"if \(" + E + r"\) usetmpbuf = 1;", "usetmpbuf test")
+    cdef(short + "_usetmp", ["iw_i", "pw_i", "ih", "ph_i"], g.group(1), "math", fn + ": intermediate copy needed for this component")
+    g = B.find(r"th\[i\] = " + E + r";", "th[i]")
+    cdef(short + "_th", ["v_samp_factor"] + unit, g.group(1), "math", fn + ": rows of this component per iMCU row")
+    g = B.find(r"tmpbufsize \+= " + E + r";", "tmpbufsize")
+    cdef(short + "_tmpsize", ["iw_i", "pw_i", "th_i"], g.group(1), "math", fn + ": share of this component in the intermediate buffer")
+    g = B.find(r"for \(row = 0; row < ph\[i\]; row\+\+\) \{" + W + io + ROWSTEP, io + " row pointers")
+    cdef(short + "_rowstep", RS, g.group(1), "math", fn + ": distance between the row pointers of a plane")
+    if short == "dtp":
+        B.find(r"memset\(_tmpbuf, 0, sizeof\(JSAMPLE\) \* tmpbufsize\);", "intermediate buffer cleared")
+    g = B.find(r"for \(row = 0; row < th\[i\]; row\+\+\) \{" + W + r"tmpbuf\[i\]\[row\] = ptr;" + W + r"ptr \+= " + E + r";", "tmpbuf row pointers")
+    cdef(short + "_tmpstep", ["iw_i", "pw_i"], g.group(1), "math", fn + ": width of an intermediate row")
+    g = B.find(r"for \(row = 0; row < \(int\)%s->%s;" % (cinfo, dimfield) + W + r"row \+= " + E + r"\) \{", "iMCU row loop")
+    cdef(short + "_loopstep", ["max_v_samp_factor"] + (["_min_DCT_scaled_size"] if short == "dtp" else []), g.group(1), "math",
+         fn + ": image rows per iteration (loop bound: %s)" % dimfield)
+    g = B.find(r"crow\[i\] = " + E + r";", "crow[i]")
+    cdef(short + "_crow", ["row", "v_samp_factor", "max_v_samp_factor"], g.group(1), "math", fn + ": first row of this component in the iteration")
+    if short == "dtp":
+        B.find(r"if \(usetmpbuf\) yuvptr\[i\] = tmpbuf\[i\];" + W + r"else yuvptr\[i\] = &outbuf\[i\]\[crow\[i\]\];", "row pointers handed to the codec")
+        g = B.find(r"for \(j = 0; j < " + E + r"; j\+\+\) \{" + W + r"memcpy\(outbuf\[i\]\[" + E + r"\], tmpbuf\[i\]\[j\], " + E + r"\);", "cropping copy")
+        cdef("dtp_copy_n", ["th_i", "ph_i", "crow_i"], g.group(1), "math", fn + ": rows copied out of the intermediate buffer")
+        cdef("dtp_copy_dst", ["crow_i", "j"], g.group(2), "math", fn + ": destination row")
+        cdef("dtp_copy_len", ["pw_i"], g.group(3), "math", fn + ": samples copied per row")
+    else:
+        g = B.find(r"for \(j = 0; j < " + E + r"; j\+\+\) \{" + W + r"memcpy\(tmpbuf\[i\]\[j\], inbuf\[i\]\[" + E + r"\], " + E + r"\);", "padding copy")
+        cdef("cfp_copy_n", ["th_i", "ph_i", "crow_i"], g.group(1), "math", fn + ": rows copied into the intermediate buffer")
+        cdef("cfp_copy_src", ["crow_i", "j"], g.group(2), "math", fn + ": source row")
+        cdef("cfp_copy_len", ["pw_i"], g.group(3), "math", fn + ": samples copied per row")
+        B.find(r"else" + W + r"yuvptr\[i\] = &inbuf\[i\]\[crow\[i\]\];", "row pointers handed to the codec")
 
 OUT.append("(* the unified-buffer functions whose statements were translated above *)")
 OUT.append("Definition unified_fns : list uni_fn := [%s]." % "; ".join("u" + s for s in uni_names))
